@@ -89,7 +89,18 @@ where
     }
 
     // ---- views
-    let optional: Vec<(usize, u64)> = if tolerant { ctx.optional_records.borrow().iter().copied().collect() } else { vec![] };
+    let mut optional: Vec<(usize, u64)> = if tolerant { ctx.optional_records.borrow().iter().copied().collect() } else { vec![] };
+    if tolerant {
+        // records of cancelled operations may still be appended by their detached closures
+        let uids = ctx.cancelled.borrow();
+        for (b, v) in phys.iter() {
+            for r in v.iter() {
+                if r.complete && r.tag.map(|t| uids.contains(&t.uid)).unwrap_or(false) && !optional.contains(&(*b, r.offset)) {
+                    optional.push((*b, r.offset));
+                }
+            }
+        }
+    }
     let optional: Vec<(usize, u64)> = optional.into_iter().take(4).collect();
     let base: Vec<&PhysRec> = phys.iter().filter(|(b, _)| attached.contains(b)).flat_map(|(_, v)| v.iter()).filter(|r| r.complete && r.header_crc_ok).collect();
     let mut views: Vec<View> = Vec::new();
@@ -272,9 +283,16 @@ where
             let mm = meta_map(m);
             let got = &ans.with[m as usize];
             if !views.iter().any(|v| read_matches(ctx, &v.read_with(&kb, &mm), got, tolerant)) {
-                // a damaged record in the list can make the metadata scan fail
-                if tolerant && got.is_err() && full_view.read_all_with_marker(&kb).iter().any(|r| is_damaged(ctx, r)) {
-                    continue;
+                // a damaged record of this key (in any blob, even below a marker of a newer blob) can make
+                // the per-blob metadata scan fail or skip it; altered bytes must still never be returned
+                if tolerant && full_view.ranked(&kb).iter().any(|r| is_damaged(ctx, r)) {
+                    let acceptable = match got {
+                        Err(_) | Ok(ReadResult::NotFound) | Ok(ReadResult::Deleted(_)) => true,
+                        Ok(ReadResult::Found(b)) => full_view.ranked(&kb).iter().any(|r| r.data.as_slice() == b.as_ref()),
+                    };
+                    if acceptable {
+                        continue;
+                    }
                 }
                 let exp = full_view.read_with(&kb, &mm);
                 let altered = matches!((&exp, got), (MRead::Found(r), Ok(ReadResult::Found(_))) if is_damaged(ctx, r));
